@@ -146,6 +146,20 @@ def run(ctx, rep):
             rep.discharged(k3, "the value used is written back to metadata %s of the components that are evaluated/saved" % meta)
         else:
             rep.violated(k3, "the effective %s is recorded in the metadata of the emitted components" % pname, construct=where)
+    # an option with a clap default is always "given": the metadata / default levels would be dead
+    dv = []
+    prog = ctx.bin
+    for b in prog.bodies.values():
+        for ex in b["exprs"]:
+            if ex["k"] == "call":
+                t = prog.types[ex["fty"]]
+                if t["k"] == "fndef" and t["path"].startswith("clap::Arg") and t["name"].startswith("default_value"):
+                    dv.append(ex["loc"])
+    if dv:
+        rep.violated("C19/Q1/clap-default", "an option that is not given is absent (so metadata and defaults can apply)",
+                     construct=short_loc(dv[0]), why="a clap argument defines default_value: value_of() is then always Some")
+    else:
+        rep.discharged("C19/Q1/clap-default", "no argument has a clap-level default (absence is visible to the precedence logic)", nontrivial=False)
     # --oc writes the evaluated components
     wr = [e for e in ev.effects if e.kind == "write_file"]
     oc = [e for e in wr if mentions(e.info[1], lambda x: x.op == "display" and x.a[1] is comps_arg)]
